@@ -9,7 +9,10 @@
    optimizeFoam runs (`trace`).  That optimised and unoptimised programs behave alike is
    decided by the differential run (the global passes are not modelled). *)
 Require Import ZArith List String Ascii Bool.
+Require Import AV.Builtins.CInt AV.Builtins.Spec AV.Builtins.Facts AV.Gen.Builtins AV.Builtins.ProofsCfold.
 Require Import AV.Opt.Ctl AV.Gen.OptCtl AV.Opt.Model AV.Opt.Facts.
+Require Import AV.Opt.PeepCtl AV.Gen.PeepTbl AV.Opt.FoamSem AV.Opt.Fold AV.Opt.FoldFacts.
+Require Import AV.Opt.PeepSem AV.Opt.Peep AV.Opt.PeepTblFacts AV.Opt.PeepFacts.
 Import ListNotations.
 Local Open Scope Z_scope.
 Local Open Scope string_scope.
@@ -111,6 +114,89 @@ Theorem C02_isolated_pass_trace : forall pre f p, opt_state pre = Some f -> In p
 Proof. exact isolated_trace. Qed.
 Print Assumptions C02_isolated_pass_trace.
 
+(* The level table of optfoam.c is the one the compiler documents (`aldor -h Q`), row by row
+   (cc-fnonstd excepted: documented at -Q4, never enabled by a level); the default level and -O
+   are the documented ones.  A row switched on a level early or late breaks THIS theorem (it is
+   not by itself a change of any program's behaviour: the differential run decides that). *)
+Theorem C02_opt_table_as_documented : forall r, In r opt_ctl -> rnat r = NFlag -> help_row_ok r.
+Proof. exact help_agrees. Qed.
+Print Assumptions C02_opt_table_as_documented.
+
+Theorem C02_opt_default_as_documented :
+  help_default = default_level /\ match help_O, std_opt with Some n, Some s => s = digit n | _, _ => False end.
+Proof. exact help_default_agrees. Qed.
+Print Assumptions C02_opt_default_as_documented.
+
+(* ------------------------------------------------------------------ the local rewriting passes
+
+   Semantics (AV.Opt.FoamSem): big step over an ABSTRACT machine state S; `rd` reads a variable,
+   `lv` is the value of a side-effect-free opaque node (may depend on the state), `call` runs an
+   opaque node with side effects (value and new state).  All of S, rd, lv, call are universally
+   quantified.  Statements are refinements: if the original has a value and a final state, the
+   rewritten expression has the same value and the same final state. *)
+
+(* cfold_preserves: the constant folder (bottom-up application of the GENERATED folder table to
+   calls whose operands are data nodes, and cfoldCast) preserves every expression, of any size.
+   Rests on C04's per-row statement about the generated table. *)
+Theorem C02_cfold_preserves : forall (S : Type) rd lv call fold_all e,
+  bad_free e = true -> forall s r, ev S rd lv call s e = Some r -> ev S rd lv call s (cfold fold_all e) = Some r.
+Proof. exact (fun S rd lv call => cfold_preserves_l S rd lv call cfold_folds_to_spec_l). Qed.
+Print Assumptions C02_cfold_preserves.
+
+(* peep_rule_sound, table part: every row of the two tables regenerated from of_peep.c means what
+   PeepSem says (each "replace by" field is an identity of the operation for every operand of the
+   type; duals are inverses / negations; a table builtin stands for its abstract operation) *)
+Theorem C02_peep_rule_tables_sound :
+  Forall op_ok peep_ops /\ Forall bv_ok peep_bvals_slow /\ Forall bv_ok peep_bvals_fast.
+Proof. exact (conj ops_ok (conj bvals_slow_ok bvals_fast_ok)). Qed.
+Print Assumptions C02_peep_rule_tables_sound.
+
+(* peep_rule_sound + peep_preserves, PARTIAL.
+   Full-strength statement (NOT true of the code, refuted below):
+     forall ff e s r, ev s e = Some r -> ev s (fst (peep ff e)) = Some r.
+   Proved: the same for every run of the pass whose ghost flag is true, i.e. in which every
+   exchange of two operands (peepNegate: not (a op b) ==> b dual a; peepAdditiveOp:
+   (-a) + b ==> b - a) met `swap_ok` (both operands free of side effects, or one of them
+   independent of the state).  Every other rule - unit, zero and absorbing elements, l = r,
+   powers of two, double negation, inverse operations, and/or with a constant, cast collapse -
+   is covered unconditionally, with its side-effect guard, for expressions of any size and any
+   amount of fuel. *)
+Theorem C02_peep_preserves_partial : forall (S : Type) rd lv call ff e e',
+  peep ff e = (e', true) -> forall s r, ev S rd lv call s e = Some r -> ev S rd lv call s e' = Some r.
+Proof. exact peep_preserves_l. Qed.
+Print Assumptions C02_peep_preserves_partial.
+
+(* the two exchanges are unsound as the C guards them: concrete expression, machine and state *)
+Theorem C02_peep_negate_swap_refuted :
+  peep false ex_negate = (BCall "SIntLT" [Leaf FSInt 1 true; Var FSInt 0], false) /\
+  ev rS r_rd r_lv r_call 1 ex_negate = Some (0, 11) /\
+  ev rS r_rd r_lv r_call 1 (fst (peep false ex_negate)) = Some (1, 11).
+Proof. exact peep_negate_swap_refuted. Qed.
+Print Assumptions C02_peep_negate_swap_refuted.
+
+Theorem C02_peep_additive_swap_refuted :
+  peep false ex_additive = (BCall "SIntMinus" [Leaf FSInt 2 true; Leaf FSInt 1 true], false) /\
+  ev rS r_rd r_lv r_call 0 ex_additive = Some (0, 12) /\
+  ev rS r_rd r_lv r_call 0 (fst (peep false ex_additive)) = Some (0, 21).
+Proof. exact peep_additive_swap_refuted. Qed.
+Print Assumptions C02_peep_additive_swap_refuted.
+
+(* peep_drop_needs_pure: the operations that make peepMakeUnaryOp drop its operand have arity 0 in
+   the regenerated peepBValOpInfo (the C's guard "arity 0 and operand has a side effect -> leave
+   the call"); dropping an operand WITH a side effect changes the final state; the pass keeps such
+   a call and drops the operand only when it has no side effect.  (That no rule ever drops an
+   effectful operand is part of C02_peep_preserves_partial: the final state is preserved.) *)
+Theorem C02_peep_drop_needs_pure :
+  forallb (fun p => (arity_of p =? 0)%Z) const_ops = true /\
+  ev rS r_rd r_lv (fun x s => (1, 10 * s + Z.of_nat x)) 0 ex_drop = Some (0, 3) /\
+  ev rS r_rd r_lv (fun x s => (1, 10 * s + Z.of_nat x)) 0 (Const FBool 0) = Some (0, 0) /\
+  peep false ex_drop = (ex_drop, true) /\
+  peep false (BCall "BoolAnd" [Const FBool 0; Leaf FBool 3 false]) = (Const FBool 0, true) /\
+  peep false (BCall "SIntTimes" [Const FSInt 0; Leaf FSInt 3 true]) = (BCall "SIntTimes" [Const FSInt 0; Leaf FSInt 3 true], true) /\
+  peep false (BCall "SIntTimes" [Const FSInt 0; Leaf FSInt 3 false]) = (Const FSInt 0, true).
+Proof. exact (conj const_arities drop_needs_pure). Qed.
+Print Assumptions C02_peep_drop_needs_pure.
+
 (* Non-vacuity: accepted sequences exist, the conclusions compute to the expected tables *)
 Example ex_seq : match opt_state ["-Q3"; "-Qno-cse"; "-qNO-no-peep"; "-Qinline-limit=12"] with
                  | Some f => lvl f = 3 /\ In ("cse", V 0) (shown f) /\ In ("peep", V 1) (shown f) /\
@@ -132,3 +218,14 @@ Proof. vm_compute. intuition congruence. Qed.
 Example ex_rejected : opt_state ["-Qfoo"] = None /\ opt_state ["-Q"] = None /\ opt_state ["-Qinline-limit"] = None
                       /\ opt_state ["-Q10"] = None /\ opt_state ["-QPeep"] = None /\ opt_state ["-Qno-ALL"] <> None.
 Proof. vm_compute. intuition congruence. Qed.
+Example ex_fold : cfold true (BCall "SIntPlus" [BCall "SIntTimes" [Const FSInt 6; Const FSInt 7]; Var FSInt 0])
+                  = BCall "SIntPlus" [Const FSInt 42; Var FSInt 0] /\
+                  cfold true (BCall "SIntNext" [Const FSInt 9223372036854775807]) = Const FSInt (-9223372036854775808) /\
+                  bad_free (BCall "SIntPlus" [Const FSInt 1; Var FSInt 0]) = true.
+Proof. vm_compute. repeat split; reflexivity. Qed.
+Example ex_peep : peep false (BCall "SIntPlus" [BCall "SIntTimes" [Var FSInt 0; Const FSInt 8]; Const FSInt 0])
+                  = (BCall "SIntShiftUp" [Var FSInt 0; Const FSInt 3], true) /\
+                  peep false (BCall "BoolNot" [BCall "BoolNot" [Var FBool 1]]) = (Var FBool 1, true) /\
+                  peep false (BCall "SIntLE" [Const FSInt 0; Leaf FSInt 2 false])
+                  = (BCall "BoolNot" [BCall "SIntIsNeg" [Leaf FSInt 2 false]], true).
+Proof. vm_compute. repeat split; reflexivity. Qed.
